@@ -102,3 +102,23 @@ let () =
   register "c11_po_parse" (fun a -> match a with
     | [s] -> parse_resp (bstr_of_hex s)
     | _ -> failwith "c11_po_parse: arity")
+
+(* po.Parse + pomsg.newBundle on the bytes of a catalogue (Model/PoBundle.v) *)
+let po_parts_s (ps : part list) : string list =
+  ("#" ^ string_of_int (List.length ps))
+  :: List.concat_map (function PText t -> ["T"; hex_of_bstr t] | PPh n -> ["P"; hex_of_bstr n]) ps
+
+let () =
+  (* c11_po_load <hex bytes> #k <#id>*k -> class, then per id: none | S <parts> | L <hex var> #n <parts>*n *)
+  register "c11_po_load" (fun a -> match a with
+    | s :: k :: rest ->
+        let (ids, _) = take_n (int_field k) (function x :: r -> (Z.to_N (big_field x), r) | [] -> failwith "c11_po_load: id missing") rest in
+        (match pb_load (bstr_of_hex s) with
+         | Ok bd ->
+             "ok" :: List.concat_map (fun id ->
+               match bundle_message bd id with
+               | None -> ["none"]
+               | Some (CSimple ps) -> "S" :: po_parts_s ps
+               | Some (CPlural (v, cases)) -> "L" :: hex_of_bstr v :: ("#" ^ string_of_int (List.length cases)) :: List.concat_map po_parts_s cases) ids
+         | o -> [cls o])
+    | _ -> failwith "c11_po_load: arity")
